@@ -626,6 +626,35 @@ def memory_cases():
 
     out.append(Case(f"{PROP}/sevm.SEVM.run#MLOAD", "all offsets", harness_mload, replay=replay_arm(hs.OP_MLOAD, ["loc"], 1, MEM_PREFIX), sources=RUN_SRC))
 
+    for ntopics in (0, 2):
+
+        def harness_log(interp, ntopics=ntopics):
+            ctx = interp.ctx
+            loc, size = mem_loc(ctx, "loc"), mem_loc(ctx, "size")
+            topics = [mk_word(ctx, f"t{k}", "term") for k in range(ntopics)]
+            s = Step(interp, bytes([hs.OP_LOG0 + ntopics, 0]), [loc, size] + topics)
+            n0 = len(s.ex.context.trace)
+            s.run()
+            L, N = loc._value.e, size._value.e
+            if s.kind == "raise":
+                ctx.oblige("LOG fails only when a non-empty range exceeds the memory limit (out of gas): a zero-size range does not touch memory", z3.And(N > 0, L + N > MAXMEM, z3.BoolVal(isinstance(s.payload, OutOfGasError))), info={"exc": type(s.payload).__name__, "msg": str(s.payload)[:100]})
+                return
+            if not s.expect_continue(0, "LOG"):
+                return
+            new = s.ex.context.trace[n0:]
+            ok = len(new) == 1 and isinstance(new[0], hs.EventLog) and len(new[0].topics) == ntopics and all(a is b for a, b in zip(new[0].topics, topics))
+            ctx.oblige("LOG records exactly one event with its topics in stack order", z3.BoolVal(ok))
+            if ok:
+                d = new[0].data
+                if isinstance(d, GSlice):
+                    flag, cond = is_slice_of(d, s.mem, 0, loc._value, SymInt(L + N))
+                    ctx.oblige("LOG: the event data is memory[offset, offset+size) (zero beyond the end of memory)", z3.And(z3.BoolVal(flag), cond))
+                else:
+                    ctx.oblige("LOG: the event data is empty only for size 0", z3.And(N == 0, z3.BoolVal(isinstance(d, ByteVec) and len(d) == 0)))
+            s.no_memory_effect()
+
+        out.append(Case(f"{PROP}/sevm.SEVM.run#LOG", f"{ntopics} topic(s), all offsets and sizes", harness_log, replay=replay_code(bytes([0x5F] * ntopics + [0x5F, 0x62, 0x30, 0x00, 0x01, hs.OP_LOG0 + ntopics, 0x00])), sources=RUN_SRC + ("halmos.sevm:State.mslice",)))
+
     def harness_mload_symbolic(interp):
         ctx = interp.ctx
         s = Step(interp, bytes([hs.OP_MLOAD, 0]), [mk_word(ctx, "loc", "term")])
@@ -855,7 +884,7 @@ def halt_cases():
             s.run()
             L, N = loc._value.e, size._value.e
             if s.kind == "raise":
-                ctx.oblige(f"{name} fails only when the range exceeds the memory limit (out of gas)", z3.And(z3.Or(L > MAXMEM, z3.And(N > 0, L + N > MAXMEM)), z3.BoolVal(isinstance(s.payload, OutOfGasError))), info={"exc": type(s.payload).__name__, "msg": str(s.payload)[:100]})
+                ctx.oblige(f"{name} fails only when the range exceeds the memory limit (out of gas)", z3.And(N > 0, L + N > MAXMEM, z3.BoolVal(isinstance(s.payload, OutOfGasError))), info={"exc": type(s.payload).__name__, "msg": str(s.payload)[:100]})
                 return
             o = s.halted()
             ok = s.kind == "continue" and s.fin == [s.ex] and s.yields == ["<finalized>"]
